@@ -12,22 +12,33 @@ exact signal + zero noise + no signal channel covariance + n_channel    orc_exac
 by condition (calc_rdm AND a loop re-computation from the raw           structural breakage: scaling, factorisation,
 measurements) = signal * model.predict(theta); for condition vector     assignment of patterns to conditions ...)
 (make_design order, shuffled, unbalanced, arbitrary labels) or explicit
-indicator design matrix; all n_part, n_sim, signal, model classes;
-noise channel covariance present or not (irrelevant at zero noise)
+indicator design matrix; all n_part, n_sim, signal, model classes
+(ModelFixed from vector / matrix / RDMs, ModelWeighted with theta and
+with theta=None, ModelSelect); noise channel covariance present or not
+(irrelevant at zero noise)
+the same through calc_rdm for a model with a parameter VECTOR            orc_exact_rdm with via='calc_rdm', domain
+(ModelWeighted, theta of length 3)                                      C18/exact-rdm-theta-vector (FAILS on the
+                                                                        unchanged tree: calc_rdm raises; finding 2 in
+                                                                        C18_findings.md, input_class 'theta-vector';
+                                                                        the measurements of these models are checked
+                                                                        by the loop re-computation in C18/exact-rdm)
 the same equality to rounding level (DESIGN: rel. tol 1e-8)             orc_exact_precision  (FAILS on the unchanged
-                                                                        tree: see C18_findings.md, input_class
-                                                                        'exact-signal-precision')
+                                                                        tree: finding 1 in C18_findings.md,
+                                                                        input_class 'exact-signal-precision')
 design vectors list every condition exactly once per partition          orc_design (exhaustive over small sizes)
 design / indicator matrices: one column per unique value                orc_indicator (exhaustive over small label seqs)
 each dataset carries the condition vector and the simulation            orc_descriptors (all option combinations, also
-parameters (signal, noise, model name, theta) as descriptors            outside the exact-RDM premises)
+parameters (signal, noise, model name, theta) as descriptors            outside the exact-RDM premises; the cond_vec
+                                                                        descriptor is demanded for 1-D condition
+                                                                        vectors only, not for design-matrix input)
 same-signal option reuses ONE signal across simulations, the default    orc_same_signal (zero noise: identical /
 draws a fresh one per simulation                                        pairwise different measurements; with noise:
                                                                         signal part isolated by a same-seed run with
                                                                         signal=0)
 noise term additive; scales with sqrt(requested noise variance);        orc_noise (same-seed runs differing only in
-holds for every noise channel covariance                                signal or noise value; variance level of the
-                                                                        i.i.d. noise checked statistically, loose)
+holds for every noise channel covariance                                signal or noise value; data - noise term has
+                                                                        the exact RDM; variance level of i.i.d. noise
+                                                                        checked statistically, 15 % band, N >= 4000)
 
 Assumption used by orc_same_signal(noise>0) and orc_noise: two calls of make_dataset after np.random.seed(s) that differ
 ONLY in the numeric value of `signal` (resp. `noise` > 0) consume the global random stream identically.
@@ -37,7 +48,8 @@ NOT covered by this tier
 * The distribution of the noise (normality, independence across rows/channels) beyond its overall variance level; that a
   non-diagonal noise_cov_channel yields exactly that covariance (the property only states additivity and sqrt scaling;
   see the side observation in C18_findings.md); noise_cov_trial and signal_cov_channel (outside the property's premises).
-* Non-embeddable model RDMs, n_channel < n_cond with exact signal (outside the premises; only descriptors checked there).
+* Non-embeddable model RDMs, n_channel < n_cond with exact signal (outside the premises; only descriptors and the
+  same/fresh-signal clause are checked there), n_cond = 1 (empty RDM).
 * General (non-indicator) encoding design matrices: "RDM by condition" is only defined for indicator designs.
 * use_exact_signal=False: the RDM is then only right in expectation (not observable on bounded runs).
 """
@@ -47,7 +59,7 @@ import numpy as np
 
 from vf.rt.harness import oracle, Bounded, replay_file, close  # noqa: F401  (replay_file: used by tools/run_c.py)
 
-TOL_STRUCT = 1e-4      # orc_exact_rdm: unchanged tree reaches up to 1.5e-6 on the thorough domain (finding 1); structural errors are O(1e-2..1)
+TOL_STRUCT = 1e-4      # orc_exact_rdm: unchanged tree reaches up to 1.9e-6 on the thorough domain (finding 1); structural errors are O(1e-2..1)
 TOL_EXACT = 1e-8       # orc_exact_precision: tolerance stated in DESIGN.md section C18
 
 
